@@ -291,7 +291,7 @@ theorem specEval_incdec (fuel D : Nat) (env : Env) (op : UnOp) (post : Bool) (n 
         else (.err .outOfDomain, env1) := by
   intro hop hv
   rw [specEval]
-  simp only [hop, if_true, wordOf, hv]
+  simp only [hop, if_true, wordOf_name hv, hv]
 
 theorem specEval_assgn (fuel D : Nat) (env : Env) (n : Bytes) (y : Expr) :
     validName n = true →
@@ -299,7 +299,7 @@ theorem specEval_assgn (fuel D : Nat) (env : Env) (n : Bytes) (y : Expr) :
       andThen (specEval fuel D env y) fun v env1 => setVar env1 n v := by
   intro hv
   rw [specEval]
-  simp [isAssign, wordOf, hv, assignOp]
+  simp [isAssign, wordOf_name hv, hv, assignOp]
 
 theorem specEval_opassign (fuel D : Nat) (env : Env) (op aop : BinOp) (n : Bytes) (y : Expr) :
     assignOp op = some aop → validName n = true →
@@ -312,7 +312,7 @@ theorem specEval_opassign (fuel D : Nat) (env : Env) (op aop : BinOp) (n : Bytes
   intro hop hv
   rw [specEval]
   have : isAssign op = true := (assignOp_plain hop).1
-  simp only [this, if_true, wordOf, hv, hop]
+  simp only [this, if_true, wordOf_name hv, hv, hop]
   rfl
 
 theorem specEval_tern (fuel D : Nat) (env : Env) (x t f : Expr) :
@@ -348,15 +348,15 @@ theorem specEval_plain (fuel D : Nat) (env : Env) (op : BinOp) (x y : Expr) :
   simp only [h1, Bool.false_eq_true, if_false, h2, h3]
 
 theorem evalArith_incdec (env : Env) (op : UnOp) (post : Bool) (n : Bytes) :
-    (op = .inc ∨ op = .dec) →
+    (op = .inc ∨ op = .dec) → validName n = true →
     evalArith env (.unary op post (.word n)) =
       andThen (setVar env n (if op = .inc then wrap64 (atoi (env.get n) + 1)
           else wrap64 (atoi (env.get n) - 1))) fun _ env' =>
         (.ok (if post then atoi (env.get n) else
           (if op = .inc then wrap64 (atoi (env.get n) + 1) else wrap64 (atoi (env.get n) - 1))), env') := by
-  intro hop
+  intro hop hv
   rw [evalArith]
-  simp only [hop, if_true, wordOf]
+  simp only [hop, if_true, wordOf_name hv]
 
 theorem evalArith_unary_plain (env : Env) (op : UnOp) (post : Bool) (x : Expr) :
     ¬ (op = .inc ∨ op = .dec) →
@@ -373,23 +373,24 @@ theorem evalArith_unary_plain (env : Env) (op : UnOp) (post : Bool) (x : Expr) :
   simp only [hop, if_false]
   rfl
 
-theorem evalArith_assgn (env : Env) (n : Bytes) (y : Expr) :
+theorem evalArith_assgn (env : Env) (n : Bytes) (y : Expr) : validName n = true →
     evalArith env (.binary .assgn (.word n) y) =
       andThen (evalArith env y) fun arg env' => setVar env' n arg := by
+  intro hv
   rw [evalArith]
-  simp [isAssign, wordOf, assignOp]
+  simp [isAssign, wordOf_name hv, assignOp]
 
 theorem evalArith_opassign (env : Env) (op aop : BinOp) (n : Bytes) (y : Expr) :
-    assignOp op = some aop →
+    assignOp op = some aop → validName n = true →
     evalArith env (.binary op (.word n) y) =
       andThen (evalArith env y) fun arg env' =>
         match binArit aop (atoi (env.get n)) arg with
         | .ok v => setVar env' n v
         | e => (e, env') := by
-  intro hop
+  intro hop hv
   rw [evalArith]
   have : isAssign op = true := (assignOp_plain hop).1
-  simp only [this, if_true, wordOf, hop]
+  simp only [this, if_true, wordOf_name hv, hop]
   rfl
 
 theorem evalArith_tern (env : Env) (x t f : Expr) :
@@ -547,9 +548,9 @@ theorem eval_main (D : Nat) (hD : 98 ≤ D) : ∀ (fuel : Nat) (env : Env) (e : 
       by_cases hinc : op = .inc ∨ op = .dec
       · simp only [WF, hinc, if_true] at hwf
         obtain ⟨n, rfl, hvn⟩ := isNameWord_elim' hwf
-        simp only [LvalsOK, hinc, if_true, wordOf] at hlv
+        simp only [LvalsOK, hinc, if_true, wordOf_name hvn] at hlv
         rw [specEval_incdec _ _ _ _ _ _ hinc hvn] at h
-        rw [evalArith_incdec _ _ _ _ hinc]
+        rw [evalArith_incdec _ _ _ _ hinc hvn]
         cases hps : specEval fuel D env (.word n) with
         | mk r1 e1 =>
           rw [hps] at h
@@ -656,18 +657,18 @@ theorem eval_main (D : Nat) (hD : 98 ≤ D) : ∀ (fuel : Nat) (env : Env) (e : 
             · rw [hop] at h1; cases h1
           subst hopa
           rw [specEval_assgn _ _ _ _ _ hvn] at h
-          rw [evalArith_assgn]
+          rw [evalArith_assgn _ _ _ hvn]
           refine step h hd (fun r1 e1 hp hd1 => IH env y r1 e1 hwf.2 henv hlity hlvy hp hd1) ?_
           intro v e1 hp hv hst hf
           exact good_setVar hst hv hf
         | some aop =>
           have hlvn : env.get n = [] ∨ ∃ neg k, IntLit (env.get n) neg k := by
             have := hlv.1
-            simp only [hop, Option.isSome_some, if_true, wordOf] at this
+            simp only [hop, Option.isSome_some, if_true, wordOf_name hvn] at this
             exact this
           have hpl := assignOp_plainBin hop
           rw [specEval_opassign _ _ _ _ _ _ _ hop hvn] at h
-          rw [evalArith_opassign _ _ _ _ _ hop]
+          rw [evalArith_opassign _ _ _ _ _ hop hvn]
           obtain ⟨r1, e1, hps⟩ : ∃ r1 e1, specEval fuel D env (.word n) = (r1, e1) := ⟨_, _, rfl⟩
           rw [hps] at h
           cases r1 with
